@@ -34,6 +34,9 @@ def chk_icao(c, note):
     n = c["n"]
     msg = frames.tohex(crc24.uplink_frame(c["ctx_data"], n - 24, c["addr"]), n, c["hc"])
     r = call(U.uplink_icao, msg)
+    for _ in range(2):  # the same interrogation is typically seen again and again
+        if call(U.uplink_icao, msg) != r:
+            return "uplink_icao(%s) -> %r, then %r on a repeated call" % (msg, r, call(U.uplink_icao, msg))
     note.nt(c["addr"] != 0 and c["ctx_data"] != 0)
     note.cls("len%d" % n)
     if r[0] != "ok" or not isinstance(r[1], str) or r[1].upper() != "%06X" % c["addr"]:
@@ -132,6 +135,14 @@ def chk_rc(c, note):
     f = call(U.uplink_fields, msg)
     if f[0] != "ok" or not isinstance(f[1], dict):
         return "uplink_fields(%s) -> %r" % (msg, f)
+    snapshot = dict(f[1])
+    other = upl(11, (sd & 0xFFFF) << 7 | rr, 56, c["ctx_addr"] ^ 0x5A5A5A)
+    call(U.uplink_fields, other)       # decoding another interrogation must not change a result the caller still holds
+    call(U.uplink_icao, msg)
+    if f[1] != snapshot:
+        return "the dict returned by uplink_fields(%s) changed from %r to %r after another interrogation was decoded" % (msg, snapshot, f[1])
+    if call(U.uplink_fields, msg) != ("ok", snapshot) or call(U.bds, msg) != call(U.bds, msg):
+        return "uplink_fields(%s) -> %r on a repeated call, first %r" % (msg, call(U.uplink_fields, msg), snapshot)
     d = f[1]
     bad = []
     if d.get("DI") != di:
